@@ -26,7 +26,7 @@ ASSUMPTIONS = [
 ]
 MANIFEST = {
     "level": "exploration",
-    "technique": "property-based testing with Hypothesis: generated call trees x exhaustive subsets of pre-memoized sub-calls, oracle = side-channel execution trace (metamorphic invariance across subsets)",
+    "technique": "property-based testing with Hypothesis: generated call trees (argument-dependent, recursive, with a second thread making an unrelated call at a pause point) x exhaustive subsets of pre-memoized sub-calls, oracle = side-channel execution trace (metamorphic invariance across subsets)",
     "text": "For each generated tree the provenance record of every call is compared with the recorded trace of what the bodies really did, under every subset of pre-memoized sub-calls (exhaustive for n <= 6).",
     "note": "Trusts the harness trace (vlib/trees.py) as ground truth for what bodies did.",
 }
